@@ -637,19 +637,30 @@ Definition ext_after (ep : Z) pre post dev loc : option pep440 :=
 Lemma okstr_bang : okstr [33%N].
 Proof. intros b. reflexivity. Qed.
 
-Theorem pep_init_render ep n1 n2 rest pre post dev loc :
-  let nums := n1 :: n2 :: rest in
+Lemma pn_head n1 rest : 0 <= n1 < infinity -> exists X, pn (n1 :: rest) = Z_to_dec n1 ++ X.
+Proof.
+  intros H.
+  assert (Vs1 : value_string n1 = Z_to_dec n1).
+  { destruct (value_string_cases n1 ltac:(right; right; auto)) as [[E _]|[[E _]|[_ E]]]; auto;
+      unfold wildcard, infinity in *; lia. }
+  destruct rest as [|y l].
+  - exists []. rewrite pn_one, app_nil_r. exact Vs1.
+  - exists (46%N :: pn (y :: l)). rewrite pn_cons2, Vs1. reflexivity.
+Qed.
+
+(* pep440Extension.init on a rendered version *)
+Theorem pep_init_render_gen ep n1 rest pre post dev loc :
+  let nums := n1 :: rest in
   0 <= ep <= 255 -> 0 <= n1 < infinity -> Forall valid_num nums ->
   pre_ok pre -> (match post with Some n => 0 <= n | None => True end) ->
   (match dev with Some n => 0 <= n | None => True end) -> loc_ok loc ->
-  let s := render ep (pn nums) pre post dev loc in
-  possible_pypi s = true /\
-  pep_init s = Ok (pad3 nums, wrap16 (Z.of_nat (length nums)),
-                   match pre with Some (w, n) => [w; Z_to_dec (gv n)] | None => [] end,
-                   match pre with Some _ => true | None => false end,
-                   ext_after ep pre post dev loc).
+  pep_init (render ep (pn nums) pre post dev loc) =
+  Ok (pad3 nums, wrap16 (Z.of_nat (length nums)),
+      match pre with Some (w, n) => [w; Z_to_dec (gv n)] | None => [] end,
+      match pre with Some _ => true | None => false end,
+      ext_after ep pre post dev loc).
 Proof.
-  intros nums Hep Hn1 V Hp Hq Hd Hl s.
+  intros nums Hep Hn1 V Hp Hq Hd Hl. set (s := render ep (pn nums) pre post dev loc).
   set (T := r_tail pre post dev loc).
   assert (Tp : plainnb T) by (apply tail_pieces; auto).
   destruct (pn_pieces nums V) as [On Nn].
@@ -664,36 +675,52 @@ Proof.
       rewrite <- (app_nil_r (Z_to_dec ep ++ [33%N] ++ pn nums ++ T)). rewrite <- !app_assoc.
       rewrite (plainnb_okstr _ (dec_pieces ep ltac:(lia))). rewrite okstr_bang.
       rewrite app_assoc. rewrite O2. reflexivity. }
+  unfold pep_init. fold s. rewrite (trim_space_id s Ck). rewrite Ck. cbn [negb].
+  unfold s, render. fold T. rewrite (parse_epoch_render ep _ Hep Nb). cbn [bind].
+  set (e0 := if ep =? 0 then None else Some (set_epoch zero_pep440 ep)).
+  assert (Sv : strip_v (pn nums ++ T) = pn nums ++ T).
+  { destruct (pn_head n1 rest Hn1) as [X EX]. fold nums in EX. rewrite EX.
+    destruct (dec_head n1 ltac:(lia)) as (d0 & ds & E & D0). rewrite E. cbn [app].
+    apply strip_v_digit; auto. }
+  rewrite Sv.
+  assert (Tk : tail_ok T) by (apply tail_ok_r_tail; auto).
+  rewrite (release_print nums true T _ ltac:(discriminate) V) ; auto;
+    [| intros _; cbn [hd nums]; unfold wildcard; lia].
+  cbn [bind]. unfold nums at 1.
+  destruct (pre_print e0 pre post dev loc (dd T) Hp (or_intror eq_refl)) as (r1 & P1 & R1).
+  rewrite P1.
+  destruct (post_print (match pre with Some (w, n) => Some (set_pre (make_ext e0) w (gv n)) | None => e0 end)
+              post dev loc r1 Hq R1) as (r2 & P2 & R2).
+  rewrite P2.
+  rewrite (dev_print _ dev loc r2 Hd R2).
+  rewrite (local_print _ loc Hl). cbn [bind].
+  unfold ext_after. fold e0. destruct pre as [[w n]|]; reflexivity.
+Qed.
+
+Theorem pep_init_render ep n1 n2 rest pre post dev loc :
+  let nums := n1 :: n2 :: rest in
+  0 <= ep <= 255 -> 0 <= n1 < infinity -> Forall valid_num nums ->
+  pre_ok pre -> (match post with Some n => 0 <= n | None => True end) ->
+  (match dev with Some n => 0 <= n | None => True end) -> loc_ok loc ->
+  let s := render ep (pn nums) pre post dev loc in
+  possible_pypi s = true /\
+  pep_init s = Ok (pad3 nums, wrap16 (Z.of_nat (length nums)),
+                   match pre with Some (w, n) => [w; Z_to_dec (gv n)] | None => [] end,
+                   match pre with Some _ => true | None => false end,
+                   ext_after ep pre post dev loc).
+Proof.
+  intros nums Hep Hn1 V Hp Hq Hd Hl s.
+  split; [|apply pep_init_render_gen; auto].
   destruct (Z_to_dec_spec n1 ltac:(lia)) as (D1 & Ne1 & V1).
   assert (Vs1 : value_string n1 = Z_to_dec n1).
   { destruct (value_string_cases n1 ltac:(right; right; auto)) as [[E _]|[[E _]|[_ E]]]; auto;
       unfold wildcard, infinity in *; lia. }
   assert (Epn : pn nums = Z_to_dec n1 ++ 46%N :: pn (n2 :: rest)).
   { unfold nums. rewrite pn_cons2, Vs1. reflexivity. }
-  split.
-  - unfold s, render, r_epoch. fold T. rewrite Epn. destruct (Z.eqb_spec ep 0).
-    + rewrite <- app_assoc. cbn [app]. apply possible_digits_dot; auto.
-    + destruct (Z_to_dec_spec ep ltac:(lia)) as (De & Nee & _).
-      rewrite <- app_assoc. cbn [app]. apply possible_digits_bang; auto.
-  - unfold pep_init. rewrite (trim_space_id s Ck). rewrite Ck. cbn [negb].
-    unfold s, render. fold T. rewrite (parse_epoch_render ep _ Hep Nb). cbn [bind].
-    set (e0 := if ep =? 0 then None else Some (set_epoch zero_pep440 ep)).
-    assert (Sv : strip_v (pn nums ++ T) = pn nums ++ T).
-    { rewrite Epn. destruct (dec_head n1 ltac:(lia)) as (d0 & ds & E & D0). rewrite E. cbn [app].
-      apply strip_v_digit; auto. }
-    rewrite Sv.
-    assert (Tk : tail_ok T) by (apply tail_ok_r_tail; auto).
-    rewrite (release_print nums true T _ ltac:(discriminate) V) ; auto;
-      [| intros _; cbn [hd nums]; unfold wildcard; lia].
-    cbn [bind]. unfold nums at 1.
-    destruct (pre_print e0 pre post dev loc (dd T) Hp (or_intror eq_refl)) as (r1 & P1 & R1).
-    rewrite P1.
-    destruct (post_print (match pre with Some (w, n) => Some (set_pre (make_ext e0) w (gv n)) | None => e0 end)
-                post dev loc r1 Hq R1) as (r2 & P2 & R2).
-    rewrite P2.
-    rewrite (dev_print _ dev loc r2 Hd R2).
-    rewrite (local_print _ loc Hl). cbn [bind].
-    unfold ext_after. fold e0. destruct pre as [[w n]|]; reflexivity.
+  unfold s, render, r_epoch. rewrite Epn. destruct (Z.eqb_spec ep 0).
+  - rewrite <- app_assoc. cbn [app]. apply possible_digits_dot; auto.
+  - destruct (Z_to_dec_spec ep ltac:(lia)) as (De & Nee & _).
+    rewrite <- app_assoc. cbn [app]. apply possible_digits_bang; auto.
 Qed.
 
 (* ---------- invariants of what Parse stores ---------- *)
